@@ -19,6 +19,7 @@ from __future__ import annotations
 import sys
 import unicodedata
 from abc import abstractmethod
+from fractions import Fraction
 from functools import reduce
 from itertools import chain, groupby
 from numbers import Rational
@@ -131,7 +132,11 @@ class Term(ItemSequenceT[T]):
                       n_items: Optional[int] = None,
                       keep_item_order: bool = True) -> ItemTupleT[T]:
         if n_items == 1:  # already reduced
-            return tuple(_filter_items(items))
+            (elem, exp), = items
+            if isinstance(elem, Rational) and exp != 1:
+                # fold the exponent into the numeric element
+                return tuple(_filter_items(((_num_pow(elem, exp), 1),)))
+            return tuple(_filter_items(((elem, exp),)))
         if n_items == 2:
             elem1: ElemT[T]
             elem2: ElemT[T]
@@ -139,7 +144,8 @@ class Term(ItemSequenceT[T]):
             # most relevant case: numeric + non-numeric element
             if isinstance(elem1, Rational) and \
                     not isinstance(elem2, Rational):
-                return tuple(_filter_items(((elem1, exp1), (elem2, exp2))))
+                return tuple(_filter_items(((_num_pow(elem1, exp1), 1),
+                                            (elem2, exp2))))
             # second most relevant case: 2 non-numeric elements
             if not isinstance(elem1, Rational) and \
                     not isinstance(elem2, Rational):
@@ -158,7 +164,7 @@ class Term(ItemSequenceT[T]):
                     pass
                 else:
                     if conv is not None:
-                        return tuple(_filter_items(((conv ** exp2, 1),
+                        return tuple(_filter_items(((_num_pow(conv, exp2), 1),
                                                     (elem1, exp1 + exp2))))
                 if keep_item_order:
                     return tuple(_filter_items(((elem1, exp1),
@@ -171,12 +177,14 @@ class Term(ItemSequenceT[T]):
             # third most relevant case: non-numeric + numeric element
             if isinstance(elem2, Rational) and \
                     not isinstance(elem1, Rational):
-                return tuple(_filter_items(((elem2, exp2), (elem1, exp1))))
+                return tuple(_filter_items(((_num_pow(elem2, exp2), 1),
+                                            (elem1, exp1))))
             # least relevant case: 2 numeric elements
             if isinstance(elem1, Rational) and isinstance(elem2, Rational):
-                num: Rational = elem1 ** exp1 * elem2 ** exp2
+                num: Rational = _num_pow(elem1, exp1) * _num_pow(elem2, exp2)
                 if num != 1:
                     return (num, 1),
+                return ()
         # more than 2 items or number of items unknown:
         norm_sort_key = self.norm_sort_key
         sort_key: Callable[[Tuple[int, Any]], int] = lambda x: x[0]
@@ -216,7 +224,7 @@ class Term(ItemSequenceT[T]):
                             pass
                         else:
                             if conv is not None:
-                                num_elem *= conv ** exp2
+                                num_elem *= _num_pow(conv, exp2)
                                 accum_items[idx] = (elem_t1, exp1 + exp2)
                                 done = True
                                 break
@@ -227,7 +235,7 @@ class Term(ItemSequenceT[T]):
             else:  # numerical elements
                 group_it = cast(Iterator[Tuple[int, Tuple[Rational, int]]],
                                 group_it)
-                num_elem = reduce(mul, (elem ** exp
+                num_elem = reduce(mul, (_num_pow(elem, exp)
                                         for _, (elem, exp) in group_it),
                                   num_elem)
         if num_elem != 1:
@@ -270,7 +278,7 @@ class Term(ItemSequenceT[T]):
             pass
         else:
             if isinstance(elem, Rational):
-                return cast(Rational, elem ** exp)
+                return cast(Rational, _num_pow(elem, exp))
         return None
 
     def split(self, dflt_num: Rational = ONE) \
@@ -408,6 +416,13 @@ class Term(ItemSequenceT[T]):
 
 
 # helper functions
+
+def _num_pow(elem: Rational, exp: int) -> Rational:
+    # int ** negative int would give a float
+    if exp < 0 and isinstance(elem, int):
+        return Fraction(elem) ** exp
+    return elem ** exp
+
 
 def _filter_items(items: ItemIterableT[T]) \
         -> Generator[ItemT[T], None, None]:
